@@ -308,6 +308,23 @@ def run(world, rep, tier, only=None):
                        "call is control-dependent on an accepted fix_problem(): %s" %
                        [("" if t else "!") + T.pp(a)[:60] for (t, a) in lits])
 
+    # ---------------- C04.g what was written before the replay is on stable storage before the first replayed block
+    # e2fsck_run_ext3_journal() flushes a dirty superblock (needs_recovery set for a journal that has data) before it
+    # replays.  If that write could still be lost while replayed blocks survive a crash, the half-replayed file system
+    # no longer asks for recovery: the flush in front of the replay must not be told to skip the sync.
+    pe = world.program("e2fsck")
+    rj = pe.fn("e2fsck_run_ext3_journal", "e2fsck/journal.c")
+    recs_ = calls_to(rj, "recover_ext3_journal")
+    fl_ = [c for c in calls_to(rj, "ext2fs_flush", "ext2fs_flush2", "ext2fs_close", "ext2fs_close2")
+           if any(r in rj.reach(rj.after(c)) for r in recs_)]
+    rep.floor("C04.g flush in front of the replay in e2fsck_run_ext3_journal", min(len(recs_), len(fl_)), 1)
+    for i, c in enumerate(fl_):
+        fl = arg(c, 1) if T.call_names(c.ev["x"])[0] in ("ext2fs_flush2", "ext2fs_close2") else None
+        nosync = fl is not None and ("EXT2_FLAG_FLUSH_NO_SYNC" in T.macros(fl) or
+                                     ((T.const(fl) or 0) & (named_const(pe, "EXT2_FLAG_FLUSH_NO_SYNC") or 1)))
+        rep.ob("C04.g", site(rj, "pre-replay flush waits for the device#%d" % i), not nosync,
+               "`%s` is not given EXT2_FLAG_FLUSH_NO_SYNC" % c.text()[:50])
+
     # ---------------- C04.e no second replay, stale flag cleaned (e2fsck only)
     prog = world.program("e2fsck")
     main = prog.fn("main", "e2fsck/unix.c")
